@@ -18,6 +18,7 @@
    Partial: torn writes to the tree / bitfield / data stores are not in these theorems (a torn page or node is
    re-derived by replay: C08_replay_exact, DESIGN 5.1); tools/c07.py tears every write of every generated
    history at every byte (<= 64 bytes) or at framing/sector boundaries and random cuts, on crate and model. *)
+From HC Require Import HonestCrash1 HonestCrash2 HonestTorn.
 From HC Require Import SoundCoreLib SoundCore ReplicaDisk1 ReplicaDisk3 ReplicaDisk5 TornReplicaA TornReplicaB TornReplica.
 From HC Require Import ClearRefine Unified1 CrashClear1 CrashClear3 TornClear TornHistory.
 From HC Require Import ClearRefine Unified1 CrashClear1 TornClear.
@@ -733,6 +734,111 @@ Theorem C07_torn_replica_disk_reopens :
            (hyg cr (f_content (d_oplog d)) -> hyg cr (f_content (d_oplog d'))).
 Proof. exact reopen_RDiskZ. Qed.
 
+Theorem C07_honest_apply_torn_recovers :
+  forall cr : crypto,
+         crc_ok cr ->
+         (forall x : bytes, Datatypes.length (cr_hash cr x) = 32%nat) ->
+         (forall x : bytes, all_zero (cr_hash cr x) = false) ->
+         (forall x : bytes, bytes_ok (cr_hash cr x) = true) ->
+         forall bs : list bytes,
+         writer_fits bs ->
+         forall (f : option bool) (pf : proof) (c : core) (d : disk) (j : list sop) 
+           (ev : list event) (H : N -> bool) (cs : changeset) (c' : core) (w' : world) 
+           (delta : list sop),
+         RDInvZ cr bs c d H ->
+         AcceptAllClo.ClosedR (c_tree c) (d_tree d) ->
+         verifier_says cr c {| w_disk := d; w_journal := j; w_events := ev |} pf = Ok cs ->
+         HonestApply2.honest_changeset cr bs c pf cs ->
+         core_apply_proof cr f pf c {| w_disk := d; w_journal := j; w_events := ev |} = (c', w', Ok true) ->
+         w_journal w' = rev delta ++ j ->
+         forall (k : nat) (s : store) (off : N) (data : bytes) (t : nat),
+         nth_error delta k = Some (SW s off data) ->
+         (t < Datatypes.length data)%nat ->
+         exists dk dkt : disk,
+           apply_sops d (firstn k delta) = Some dk /\
+           apply_sop dk (tear (SW s off data) t) = Some dkt /\
+           (tear_safe cr dk (SW s off data) t ->
+            (if (k <=? ReplicaDisk4.commit_point pf)%nat
+             then reopens_to cr bs c dkt H (t_length (c_tree c))
+             else reopens_to cr bs c dkt (hold H (p_block pf)) (t_length (c_tree c'))) \/
+            s = Oplog /\ off < ENTRIES_OFFSET /\ collision cr t).
+Proof. exact honest_apply_torn_recovers. Qed.
+
+Theorem C07_honest_apply_torn_recovers_plain :
+  forall cr : crypto,
+         crc_ok cr ->
+         (forall x : bytes, Datatypes.length (cr_hash cr x) = 32%nat) ->
+         (forall x : bytes, all_zero (cr_hash cr x) = false) ->
+         (forall x : bytes, bytes_ok (cr_hash cr x) = true) ->
+         forall bs : list bytes,
+         writer_fits bs ->
+         forall (f : option bool) (pf : proof) (c : core) (d : disk) (j : list sop) 
+           (ev : list event) (H : N -> bool) (cs : changeset) (c' : core) (w' : world) 
+           (delta : list sop),
+         RDInvZ cr bs c d H ->
+         AcceptAllClo.ClosedR (c_tree c) (d_tree d) ->
+         verifier_says cr c {| w_disk := d; w_journal := j; w_events := ev |} pf = Ok cs ->
+         HonestApply2.honest_changeset cr bs c pf cs ->
+         core_apply_proof cr f pf c {| w_disk := d; w_journal := j; w_events := ev |} = (c', w', Ok true) ->
+         w_journal w' = rev delta ++ j ->
+         forall (k : nat) (s : store) (off : N) (data : bytes) (t : nat),
+         nth_error delta k = Some (SW s off data) ->
+         (t < Datatypes.length data)%nat ->
+         is_slot_write (SW s off data) = false ->
+         exists dk dkt : disk,
+           apply_sops d (firstn k delta) = Some dk /\
+           apply_sop dk (tear (SW s off data) t) = Some dkt /\
+           (if (k <=? ReplicaDisk4.commit_point pf)%nat
+            then reopens_to cr bs c dkt H (t_length (c_tree c))
+            else reopens_to cr bs c dkt (hold H (p_block pf)) (t_length (c_tree c'))).
+Proof. exact honest_apply_torn_recovers_plain. Qed.
+
+Theorem C07_honest_round_torn_recovers :
+  forall cr : crypto,
+         crc_ok cr ->
+         (forall x : bytes, Datatypes.length (cr_hash cr x) = 32%nat) ->
+         (forall x : bytes, all_zero (cr_hash cr x) = false) ->
+         (forall x : bytes, bytes_ok (cr_hash cr x) = true) ->
+         forall bs : list bytes,
+         writer_fits bs ->
+         forall (f : option bool) (cw : core) (dw : disk) (bw : list bytes) (sg : bytes) 
+           (jw : list sop) (evw : list event) (c : core) (d : disk) (j : list sop) 
+           (ev : list event) (H : N -> bool) (rq : AcceptAll.request),
+         let w := N.of_nat (Datatypes.length bw) in
+         let pk := kp_public (c_keypair c) in
+         AcceptAllCore3.writer_at cr bs cw dw bw pk sg ->
+         AcceptAllCore3.RCInv cr bs c d H ->
+         TreeOk (d_tree d) ->
+         t_length (c_tree c) <= w ->
+         AcceptAll.wf_request bs (c_tree c) (d_tree d) w rq ->
+         (forall vp : vproof,
+          create_valueless_proof (c_tree cw) (d_tree dw) (AcceptAll.rq_block rq) (AcceptAll.rq_hash rq)
+            (AcceptAll.rq_seek rq) (AcceptAll.rq_upgrade rq) = Ok vp ->
+          AcceptAllCore3.frame_guard cr c d (Replicate.vp_to_proof vp (AcceptAll.rq_value bs rq))) ->
+         let H' := HonestApply3.held_rq H rq in
+         let r' := match AcceptAll.rq_upgrade rq with
+                   | Some _ => w
+                   | None => t_length (c_tree c)
+                   end in
+         exists (pf : proof) (c' : core) (w' : world) (delta : list sop),
+           core_create_proof (AcceptAll.rq_block rq) (AcceptAll.rq_hash rq) (AcceptAll.rq_seek rq)
+             (AcceptAll.rq_upgrade rq) cw {| w_disk := dw; w_journal := jw; w_events := evw |} =
+           (cw, {| w_disk := dw; w_journal := jw; w_events := evw |}, Ok (Some pf)) /\
+           core_apply_proof cr f pf c {| w_disk := d; w_journal := j; w_events := ev |} = (c', w', Ok true) /\
+           w_journal w' = rev delta ++ j /\
+           t_length (c_tree c') = r' /\
+           (forall (k : nat) (s : store) (off : N) (data : bytes) (t : nat),
+            nth_error delta k = Some (SW s off data) ->
+            (t < Datatypes.length data)%nat ->
+            exists dk dkt : disk,
+              apply_sops d (firstn k delta) = Some dk /\
+              apply_sop dk (tear (SW s off data) t) = Some dkt /\
+              (tear_safe cr dk (SW s off data) t ->
+               (if (k <=? rq_commit_point rq)%nat
+                then reopens_to cr bs c dkt H (t_length (c_tree c))
+                else reopens_to cr bs c dkt H' r') \/ s = Oplog /\ off < ENTRIES_OFFSET /\ collision cr t)).
+Proof. exact honest_round_torn_recovers. Qed.
+
 Print Assumptions C07_torn_entry_is_no_frame.
 Print Assumptions C07_torn_append_recovers_before.
 Print Assumptions C07_torn_flush_before_after_or_collision.
@@ -779,3 +885,6 @@ Print Assumptions TornHistory.toy_torn_clear_history.
 Print Assumptions TornReplica.scz_every_tear_of_first_contact.
 Print Assumptions TornReplica.scz_torn_states_met.
 Print Assumptions TornReplica.scz_history_computed.
+Print Assumptions C07_honest_apply_torn_recovers.
+Print Assumptions C07_honest_apply_torn_recovers_plain.
+Print Assumptions C07_honest_round_torn_recovers.
